@@ -427,7 +427,7 @@ func (w *World) enabledLocked() []*Task {
 	return e
 }
 
-const spinLimit = 512
+const spinLimit = 20000
 
 func (w *World) pickLocked(e []*Task) *Task {
 	if len(e) == 1 {
